@@ -12,6 +12,9 @@ pub struct Case {
     pub inst: InstRep,
     pub state: Vec<(u64, f64)>,
     pub bit_exact: bool,
+    /// values fixed through the real `partial_evaluate` before evaluating (history: "previously fixed values")
+    #[serde(default)]
+    pub pre_fix: Vec<(u64, f64)>,
 }
 
 pub fn check_case(l: &mut Local, case: &Case) {
@@ -31,9 +34,23 @@ pub fn check_case(l: &mut Local, case: &Case) {
 fn check_case_once(l: &mut Local, case: &Case) {
     l.evaluations += 1;
     l.transitions += 1;
-    let msg = case.inst.to_msg();
+    let mut msg = case.inst.to_msg();
     let st = mk_state(&case.state);
-    let expected = ref_evaluate(&case.inst, &case.state);
+    let mut inst_exp = case.inst.clone();
+    let mut full_state = case.state.clone();
+    if !case.pre_fix.is_empty() {
+        let fixed = mk_state(&case.pre_fix);
+        if let Err(e) = sdk(|| msg.partial_evaluate(&fixed).map_err(|e| format!("{e:#}"))).and_then(|r| r) {
+            return l.violation("history/partial_evaluate-error", || json!(case), e);
+        }
+        for (id, x) in &case.pre_fix {
+            if let Some(v) = inst_exp.vars.iter_mut().find(|v| v.id == *id) {
+                v.substituted = Some(*x);
+            }
+            full_state.push((*id, *x));
+        }
+    }
+    let expected = ref_evaluate(&inst_exp, &full_state);
     let got = sdk(|| msg.evaluate(&st).map_err(|e| format!("{e:#}")));
     let got = match got {
         Err(p) => {
@@ -73,8 +90,9 @@ fn check_case_once(l: &mut Local, case: &Case) {
             if !exp.constraints.is_empty() {
                 l.nontrivial += 1;
             }
-            for (sig, detail) in compare_solution(&sol, exp, &case.inst, case.bit_exact) {
-                l.violation(&sig, || json!(case), detail);
+            let with_history = !case.pre_fix.is_empty();
+            for (sig, detail) in compare_solution_opts(&sol, exp, &inst_exp, case.bit_exact, !with_history) {
+                l.violation(&if with_history { format!("history/{sig}") } else { sig }, || json!(case), detail);
             }
         }
     }
@@ -321,7 +339,7 @@ pub fn run(ctx: &Ctx) -> Finish {
         let inst = build(vc, obj, cons);
         l.states += 1;
         for (k, (st, dy)) in states(&inst, vc, false).into_iter().enumerate() {
-            let case = Case { inst: inst.clone(), state: st, bit_exact: dy };
+            let case = Case { inst: inst.clone(), state: st, bit_exact: dy, pre_fix: vec![] };
             if k == 1 && ctx.want_sample(i as u64) {
                 l.samples.push((i as u64, json!(case)));
             }
@@ -364,7 +382,31 @@ pub fn run(ctx: &Ctx) -> Finish {
         let inst = build(vc, obj, cons);
         l.states += 1;
         for (st, dy) in states(&inst, vc, true) {
-            check_case(l, &Case { inst: inst.clone(), state: st, bit_exact: dy });
+            check_case(l, &Case { inst: inst.clone(), state: st, bit_exact: dy, pre_fix: vec![] });
+        }
+    });
+    // Enumeration 3: previously fixed values. x2 (and / or x1) is fixed through the real partial_evaluate on
+    // instances whose variable list is in every order, then the rest is evaluated.
+    let cons3 = constraint_configs(1);
+    let orders = permutations(3);
+    let n3 = cons3.len() * orders.len();
+    ctx.note("enumeration3_histories", json!(n3 * 6));
+    ctx.par(n3, |l, i| {
+        let cons = &cons3[i % cons3.len()];
+        let ord = &orders[i / cons3.len()];
+        for (oi, obj) in objs.iter().enumerate().take(5) {
+            let vc = VarCfg { x1: kbs[1], x7: Some(kbs[3]), prefixed: oi % 2 == 0, dep: (oi % 3) as u8 };
+            let mut inst = build(&vc, obj, cons);
+            // permute the first three variables (ids 1, 2, 7)
+            let first3: Vec<VarRep> = inst.vars[..3].to_vec();
+            for (k, o) in ord.iter().enumerate() {
+                inst.vars[k] = first3[*o].clone();
+            }
+            l.states += 1;
+            for (fix, rest) in [(vec![(2u64, 0.0)], vec![(1u64, 2.0)]), (vec![(1, -1.0)], vec![(2, 2.0)]), (vec![(1, 2.0), (2, 0.0)], vec![]), (vec![(7, 1.0)], vec![(1, 0.0), (2, 0.0)])] {
+                let dy = dyadic_consts(&inst) || fix.iter().chain(rest.iter()).any(|(id, x)| *id == 2 && *x == 0.0);
+                check_case(l, &Case { inst: inst.clone(), state: rest, bit_exact: dy, pre_fix: fix });
+            }
         }
     });
     ctx.assume("Flags are asserted against the tolerance rule applied to the SDK-reported constraint values, which are themselves compared with exact values (bit-exact for dyadic inputs, gamma-bound otherwise).");
